@@ -94,6 +94,8 @@ def bounds(tier):
         "al_interpretations": ["eager", "lazy", "reflect", "normalize"] if th else ["eager", "lazy"],
         "at_pool": {k: v for k, v in ATPOOL.items() if th or k != "d"},
         "at_event_shapes": [[], [2]],
+        "at_enumeration": "align_tensor: every ordered subset as new_inputs x every ordered sub-subset as x; "
+        "align_tensors: every pair of ordered subsets of <= 3 names; expand in {False, True}",
         "mat_pool_terms": len(mat_pool(tier)),
         "mat_interpretations": ["eager", "lazy"],
     }
@@ -323,10 +325,6 @@ def _viol(case, site, what, message, body, extra_features=None, transitions=1):
     if extra_features:
         f.update(extra_features)
     return core.violation(json.dumps(case), site, what + ": " + message, case, f, snippet(body, message), transitions=transitions)
-
-
-def _eq(a, b, real):
-    return observe.values_equal(a, b, "real" if real else 0)
 
 
 # ---------------------------------------------------------------------------
